@@ -144,6 +144,37 @@ def result_list_name(fn: ast.FunctionDef) -> str:
     raise AnalysisError(f"{fn.name}: returned list not found")
 
 
+def output_lists(fn: ast.FunctionDef) -> set[str]:
+    """The returned token list and the local lists whose content is moved into it wholesale (`tokens.extend(batch)`,
+    `tokens.extend(batch + [last])`, `tokens += batch`): a token appended to such a list is a token of the result."""
+    res = result_list_name(fn)
+    out = {res}
+    changed = True
+    while changed:
+        changed = False
+        for n in ast.walk(fn):
+            arg = None
+            if isinstance(n, ast.Call) and call_method(n)[1] == "extend" and isinstance(call_method(n)[0], ast.Name) and call_method(n)[0].id in out and n.args:
+                arg = n.args[0]
+            elif isinstance(n, ast.AugAssign) and isinstance(n.op, ast.Add) and isinstance(n.target, ast.Name) and n.target.id in out:
+                arg = n.value
+            elif isinstance(n, ast.Assign) and len(n.targets) == 1 and isinstance(n.targets[0], ast.Name) and n.targets[0].id in out and isinstance(n.value, ast.BinOp):
+                arg = n.value                        # `_arg = batch + [last]` on its way into the result
+            if arg is None:
+                continue
+            parts = [arg]
+            while parts:
+                x = parts.pop()
+                if isinstance(x, ast.BinOp) and isinstance(x.op, ast.Add):
+                    parts += [x.left, x.right]
+                elif isinstance(x, ast.Name) and x.id not in out and any(
+                        isinstance(a, ast.Assign) and len(a.targets) == 1 and isinstance(a.targets[0], ast.Name) and a.targets[0].id == x.id
+                        and ((isinstance(a.value, ast.List) and not a.value.elts) or isinstance(a.value, ast.BinOp)) for a in ast.walk(fn)):
+                    out.add(x.id)
+                    changed = True
+    return out
+
+
 def emitter_templates(p: Program, flags: dict):
     fi = p.func(f"{TOK}.tokenise")
     doms = emitter_domains(p, fi)
@@ -157,7 +188,7 @@ def emitter_templates(p: Program, flags: dict):
     for nm in params:
         if nm == "insert_bar_token" or nm == "flag_running_time_signature":
             extra[nm] = True
-    si = StringInterp(p, fi, flags, fd, out_lists={result_list_name(fi.node)}, extra=extra)
+    si = StringInterp(p, fi, flags, fd, out_lists=output_lists(fi.node), extra=extra)
     si.run_function(fi.node, {})
     return si.emitted, doms
 
